@@ -1898,7 +1898,13 @@ func ruleGRDrmw(w *World, r *Report, lr *lckResult) {
 	const cls = "engine.Engine.metadataLocks[*]"
 	n := 0
 	for _, fn := range lr.funcs {
-		if fn.Pkg == nil || fn.Pkg.Pkg == nil || !strings.HasSuffix(fn.Pkg.Pkg.Path(), "/pkg/engine") || fn.Parent() != nil {
+		// (a function literal counts like a function: the critical section of one node may be written as
+		// `func() { lock; defer unlock; read; journal; write back }()`)
+		top := fn
+		for top.Parent() != nil {
+			top = top.Parent()
+		}
+		if top.Pkg == nil || top.Pkg.Pkg == nil || !strings.HasSuffix(top.Pkg.Pkg.Path(), "/pkg/engine") {
 			continue
 		}
 		reads, writes := findInstrs(fn, callsTo(gm)), findInstrs(fn, callsTo(am))
@@ -1919,7 +1925,7 @@ func ruleGRDrmw(w *World, r *Report, lr *lckResult) {
 			continue
 		}
 		n++
-		nm := shortFn(fn)
+		nm := shortFn(top)
 		steps := []struct {
 			what string
 			ins  []ssa.Instruction
@@ -2321,7 +2327,24 @@ func checkGate(w *World, lr *lckResult, g gateSpec) string {
 			return sd.fn + " was not found (anchor lost)"
 		}
 		fn := w.SSAFunc(fi.Obj)
-		target := sd.target(w)
+		direct := sd.target(w)
+		// the guarded operation may sit in a helper that was extracted out of this function (and that nobody else
+		// calls): the call of the helper is then this function's side of the inversion
+		helpers := map[*ssa.Function]bool{}
+		for _, h := range w.extractedHelpers(fn) {
+			for _, hf := range append([]*ssa.Function{h}, closuresOf(h)...) {
+				if len(findInstrs(hf, direct)) > 0 {
+					helpers[h] = true
+				}
+			}
+		}
+		target := func(in ssa.Instruction) bool {
+			if direct(in) {
+				return true
+			}
+			c, ok := in.(*ssa.Call)
+			return ok && helpers[c.Call.StaticCallee()]
+		}
 		if len(findInstrs(fn, target)) == 0 {
 			return sd.fn + " no longer contains the guarded operation (anchor lost)"
 		}
